@@ -3,7 +3,8 @@
    generated circuits); Spec/QasmStrict.v: strict reader; Spec/Qasm.v, QasmSem.v: the standard's semantics;
    Gen/Qasm.v: name map and definition strings regenerated from qasm.py on every run. *)
 From QV Require Import Model.QasmImport Model.QasmExport Spec.QasmStrict Spec.QasmSem Found.Circ Gen.Gates Gen.Qasm.
-From QV Require Import Proofs.QasmShortcut Proofs.QasmExport Proofs.QasmLex Proofs.QasmLex2 Proofs.QasmLex3.
+From QV Require Import Proofs.QasmShortcut Proofs.QasmExport Proofs.QasmLex Proofs.QasmLex2 Proofs.QasmLex3 Proofs.QasmLex4 Proofs.QasmLex5.
+From QV Require Import Proofs.QasmValid1 Proofs.QasmValid2 Proofs.QasmValid3 Proofs.QasmValid4 Proofs.QasmValid5 Proofs.QasmValid6.
 Local Open Scope string_scope.
 Local Open Scope nat_scope.
 Local Open Scope list_scope.
@@ -45,22 +46,69 @@ Theorem export_refuses_unstored_measurement : forall c t, In (EMeas t None) (e_o
 Proof. exact refuses_unstored_measurement. Qed.
 Print Assumptions export_refuses_unstored_measurement.
 
-(* export_valid, PARTIAL, with the guard no_meas.
-   Full statement: forall c t, no_meas c = true -> export c = Some t -> exists p, strict_parse t = Some p /\ wf lib_sigs p = true.
-   The guard is necessary (export_valid_measure_refuted): Measurement._to_qasm prints `measure q[i] -> c[j]` without the ';'
-   (open known finding measure-without-semicolon; the string is pinned by tests/test_qasm.py and cannot be repaired here).
-   Proved: the emitted definitions and the statement shapes (zero, exponent, tuple parameters) are accepted (below), and - for
-   ALL numbers, parameter containers and qubit lists - every number and every gate statement line lexes to the expected tokens
-   (export_number_lexes, export_statement_lexes).  Not proved: the assembly over the whole text (header, register lines,
-   definition lines) and the PARSER's acceptance of the statement tokens; these remain checked by vm_compute of strict_parse
-   on the model's text for every generated measurement-free circuit in the correspondence run. *)
-Theorem export_valid_partial :
+(* export_valid, for ALL circuits, with explicit guards.
+   Every text the exporter produces for a circuit c is accepted by the strict reader (Spec/QasmStrict.v: strict lexer + parser) and
+   the program it returns - given explicitly, prog_of c - is well-formed OpenQASM 2.0 on top of qelib1.inc (Spec/Qasm.v wf: every
+   gate declared before use, arities, qubit indices inside the register, no repeated qubit, names declared once, ...), provided
+     no_meas c   : no Measurement.  Necessary (export_valid_measure_refuted): Measurement._to_qasm prints `measure q[i] -> c[j]`
+                   without the ';' (open known finding measure-without-semicolon, pinned by tests/test_qasm.py);
+     shapes_ok c : the repr(float) shapes supplied by the oracle consist of non-empty digit strings (what repr(float) prints);
+     circ_wf c   : the circuit itself is well-formed - every gate carries the number of parameters and qubits its signature asks
+                   for, qubit indices are < N and distinct, N > 0.  The exporter checks NONE of this (QubitCircuit.add_gate accepts
+                   such gates): wf_guard_needed below shows that without it the text is rejected or ill-formed.
+   Proved by induction over the gate list: lexing of the whole text is assembled line by line (lexer_line_compositional for the
+   concrete lines, export_statement_lexes for the statement lines), then the parser consumes header, declarations, the emitted
+   definitions and one statement per gate. *)
+Theorem export_valid : forall c txt, export c = Some txt -> no_meas c = true -> shapes_ok c = true -> circ_wf c = true ->
+  exists p, strict_parse txt = Some p /\ wf lib_sigs p = true /\ p = prog_of c.
+Proof. exact valid. Qed.
+Print Assumptions export_valid.
+
+(* the syntactic half under the weakest guard: the strict reader ACCEPTS the text (grammar only) as soon as every QASMU gate has
+   parameters and exactly one qubit (u_ok; the grammar has  U ( explist ) argument ;  only - see u_guard_needed) *)
+Theorem export_parses : forall c txt, export c = Some txt -> no_meas c = true -> shapes_ok c = true -> u_ok c = true ->
+  strict_parse txt = Some (prog_of c).
+Proof. exact export_parses. Qed.
+Print Assumptions export_parses.
+
+(* the lexing of the WHOLE text: header tokens, include, qreg/creg declarations, the tokens of every emitted definition and the
+   tokens of every statement, in this order *)
+Theorem export_lexes : forall c txt, export c = Some txt -> no_meas c = true -> shapes_ok c = true ->
+  strict_lex txt = Some (hdr_toks ++ reg_toks "qreg" "q" (e_N c) ++ creg_toks c
+                         ++ flat_map (fun n => dtoks (dtext n)) (def_names export_names (e_ops c))
+                         ++ flat_map (op_toks (final_map c)) (e_ops c)).
+Proof. exact export_lexes. Qed.
+Print Assumptions export_lexes.
+
+(* the strict lexer is compositional over newline-terminated lines: no token extends over a newline, so a text ending in a newline
+   that is read on its own as [toks] is read as [toks] whatever follows (LX: in at most one lexer step per character) *)
+Theorem lexer_line_compositional : forall l toks, lex (S (length l)) (l ++ [chr 10]) = Some toks -> LX (l ++ [chr 10]) toks.
+Proof. exact LX_line. Qed.
+Print Assumptions lexer_line_compositional.
+
+(* the statements of the parsed text are the statements export_denotes / roundtrip are about: statement i of the program is
+   q(numerals) q[i1],..,q[ik];  for gate i = (name, targets, controls, parameters), with (name, q) exportable, the numbers of numerals
+   and qubits as in qsig name q, the qubits distinct and < N, and - if the gate has no qelib1 counterpart - the definition of q in
+   the program is the definition std_stmt / imp_stmt expand *)
+Theorem export_parsed_statements : forall c txt, export c = Some txt -> no_meas c = true -> circ_wf c = true ->
+  Forall2 (stmt_of_gate c) (e_ops c) (p_ops (prog_of c)).
+Proof. exact stmts_link. Qed.
+Print Assumptions export_parsed_statements.
+(* hence export_denotes and roundtrip hold for every statement of the parsed text, on the gate's own qubits *)
+Theorem export_parsed_denotes : forall (R : PhaseRing) (A : atoms R) (c : QV.Model.QasmExport.ecirc) txt,
+  export c = Some txt -> no_meas c = true -> circ_wf c = true ->
+  Forall2 (stmt_denotes R A) (e_ops c) (p_ops (prog_of c)).
+Proof. exact stmts_denote. Qed.
+Print Assumptions export_parsed_denotes.
+
+(* the emitted definitions and sample statement shapes (zero, exponent, tuple parameters) end to end *)
+Theorem export_shapes_accepted :
   forallb defn_chk export_defns = true /\
   (exists t, qasm_str "rx" [] [0] (PNum (NFloat (FDec false "0" "0"))) = Some t /\ accepted t = true) /\
   (exists t, qasm_str "rx" [] [0] (PNum (NFloat (FExp false "1" None true "09"))) = Some t /\ accepted t = true) /\
   (exists t, qasm_str "U" [] [0] (PTuple [NFloat (FDec false "1" "0"); NFloat (FDec false "2" "0"); NInt false 3]) = Some t /\ accepted t = true).
 Proof. exact (conj chk_defns_true format_fixed_ok). Qed.
-Print Assumptions export_valid_partial.
+Print Assumptions export_shapes_accepted.
 
 (* export_valid, lexer half (the decimal printer / strict-lexer inversion), for ALL values:
    every number the exporter prints - str(int), and repr(float) of any of the shapes [-]d.d, [-]d[.d]e(+|-)dd whose
@@ -119,3 +167,34 @@ Qed.
 Example refuses_instance : export (mkEC 2 0 [EGate "CSIGN" [1] [0] PNone false]) = None /\
   export (mkEC 1 0 [EGate "RX" [0] [] (PNum (NFloat (FInf false))) false]) = None.
 Proof. split; vm_compute; reflexivity. Qed.
+
+(* the hypotheses of export_valid are satisfiable by a non-trivial circuit (two emitted definitions, negative exponent, tuple) *)
+Definition c_demo : QV.Model.QasmExport.ecirc :=
+  mkEC 3 1 [EGate "CRX" [1] [0] (PNum (NFloat (FExp true "1" None true "09"))) false;
+            EGate "QASMU" [2] [] (PTuple [NFloat (FDec false "1" "5"); NInt true 2; NInt false 0]) false;
+            EGate "SWAP" [0; 2] [] PNone false;
+            EGate "CRX" [2] [1] (PNum (NInt false 1)) false].
+Example export_valid_instance :
+  no_meas c_demo = true /\ shapes_ok c_demo = true /\ circ_wf c_demo = true /\ u_ok c_demo = true /\
+  (exists txt, export c_demo = Some txt /\ strict_parse txt = Some (prog_of c_demo)) /\
+  length (p_gates (prog_of c_demo)) = 2 /\ length (p_ops (prog_of c_demo)) = 4.
+Proof.
+  split; [reflexivity|]. split; [reflexivity|]. split; [vm_compute; reflexivity|]. split; [reflexivity|].
+  split; [|split; vm_compute; reflexivity]. eexists. split; [vm_compute; reflexivity|]. vm_compute. reflexivity.
+Qed.
+(* the guards are needed.  QASMU without parameters: exported as `U q[0];`, which is not in the grammar *)
+Example u_guard_needed : let c := mkEC 2 0 [EGate "QASMU" [0] [] PNone false] in
+  no_meas c = true /\ shapes_ok c = true /\ u_ok c = false /\ exists txt, export c = Some txt /\ strict_parse txt = None.
+Proof. cbv zeta. repeat (split; [reflexivity|]). eexists. split; [vm_compute; reflexivity|]. vm_compute. reflexivity. Qed.
+(* qubit index out of range / missing parameter / repeated qubit: exported, accepted by the grammar, but not well-formed *)
+Example wf_guard_needed :
+  Forall (fun c => no_meas c = true /\ shapes_ok c = true /\ u_ok c = true /\ circ_wf c = false /\
+                   exists txt p, export c = Some txt /\ strict_parse txt = Some p /\ wf lib_sigs p = false)
+         [mkEC 1 0 [EGate "X" [3] [] PNone false]; mkEC 1 0 [EGate "RX" [0] [] PNone false]; mkEC 2 0 [EGate "CNOT" [0] [0] PNone false]].
+Proof.
+  repeat constructor; try reflexivity; (eexists; eexists; split; [vm_compute; reflexivity|]; split; [vm_compute; reflexivity|]; vm_compute; reflexivity).
+Qed.
+(* a "repr" that is not of the shapes repr(float) prints is outside the statement *)
+Example shape_guard_needed : let c := mkEC 1 0 [EGate "RX" [0] [] (PNum (NFloat (FDec false "1x" "0"))) false] in
+  shapes_ok c = false /\ exists txt, export c = Some txt /\ strict_parse txt = None.
+Proof. cbv zeta. split; [reflexivity|]. eexists. split; [vm_compute; reflexivity|]. vm_compute. reflexivity. Qed.
